@@ -12,47 +12,50 @@ pub struct Raw {
     pub case: Case,
     pub class: String,
     pub detail: String,
+    /// position in the exploration order (level, index): a run that is cut short keeps an exact
+    /// prefix of the complete run's raw cases
+    pub seq: u64,
 }
 
-/// Collects raw violating cases; per class only the `RAW_CAP` smallest (by a deterministic key)
-/// are kept for minimisation, the rest are counted.
+/// Collects raw violating cases in exploration order; per class only the first `RAW_CAP` are kept
+/// for attribution, the rest are counted.
 #[derive(Default)]
 pub struct RawSink {
-    by_class: BTreeMap<String, Vec<(RawKey, Raw)>>,
+    by_class: BTreeMap<String, Vec<Raw>>,
     dropped: BTreeMap<String, u64>,
 }
-type RawKey = (usize, usize, String);
-const RAW_CAP: usize = 1500;
-
-fn raw_key(c: &Case) -> RawKey {
-    (c.ops.len(), c.texts.len(), serde_json::to_string(&c.to_json()).unwrap_or_default())
-}
+const RAW_CAP: usize = 20000;
 
 impl RawSink {
-    pub fn push(&mut self, r: Raw) {
-        let case = r.case.compact();
-        let key = raw_key(&case);
+    pub fn push(&mut self, mut r: Raw) {
+        r.case = r.case.compact();
         let v = self.by_class.entry(r.class.clone()).or_default();
-        v.push((key, Raw { case, class: r.class, detail: r.detail }));
+        v.push(r);
         if v.len() >= 2 * RAW_CAP {
-            v.sort_by(|a, b| a.0.cmp(&b.0));
+            v.sort_by_key(|x| x.seq);
             let n = (v.len() - RAW_CAP) as u64;
             v.truncate(RAW_CAP);
-            let class = v[0].1.class.clone();
+            let class = v[0].class.clone();
             *self.dropped.entry(class).or_insert(0) += n;
+        }
+    }
+    /// forget everything recorded at or after `seq` (an exploration level / batch that was cut short)
+    pub fn discard_from(&mut self, seq: u64) {
+        for v in self.by_class.values_mut() {
+            v.retain(|x| x.seq < seq);
         }
     }
     pub fn into_parts(mut self) -> (Vec<Raw>, BTreeMap<String, u64>) {
         let mut out = Vec::new();
         for (class, v) in self.by_class.iter_mut() {
-            v.sort_by(|a, b| a.0.cmp(&b.0));
+            v.sort_by_key(|x| x.seq);
             if v.len() > RAW_CAP {
                 *self.dropped.entry(class.clone()).or_insert(0) += (v.len() - RAW_CAP) as u64;
                 v.truncate(RAW_CAP);
             }
         }
         for (_, v) in self.by_class {
-            out.extend(v.into_iter().map(|x| x.1));
+            out.extend(v);
         }
         (out, self.dropped)
     }
@@ -100,6 +103,12 @@ pub fn seam_orders(n: usize) -> Vec<Vec<usize>> {
 
 // ------------------------------------------------------------------ violation post-processing
 
+/// Attribution of raw violating cases to minimal witnesses, greedily **in exploration order**: a raw
+/// case that an earlier witness of its class embeds in (the witness is obtainable from it by the
+/// minimiser's own reductions, identifiers masked) is explained by it, otherwise it is minimised
+/// and becomes a witness (at most `per_class` per class; later unexplained ones are counted).
+/// Every decision depends only on earlier raw cases, and a run that was cut short keeps an exact
+/// prefix of the raw cases, so it reports a subset of the complete run's fingerprints.
 pub fn finalize(
     prop: &str,
     sink: RawSink,
@@ -109,22 +118,19 @@ pub fn finalize(
     per_class: usize,
     dl: &Deadline,
 ) {
-    let (mut raws, dropped) = sink.into_parts();
+    let (raws, dropped) = sink.into_parts();
     if raws.is_empty() {
         return;
     }
     for (class, n) in &dropped {
         st.raw_violating_cases += n;
-        *st.outcomes.entry(format!("not-minimised:{class} (beyond the {RAW_CAP} smallest raw cases of this class)")).or_insert(0) += n;
+        *st.outcomes.entry(format!("not-attributed:{class} (beyond the first {RAW_CAP} raw cases of this class)")).or_insert(0) += n;
     }
     let _ = (prop, dl);
-    raws.sort_by_cached_key(|r| (r.class.clone(), r.case.ops.len(), r.case.texts.len(), serde_json::to_string(&r.case.to_json()).unwrap()));
     let mut by_class: BTreeMap<String, Vec<Raw>> = BTreeMap::new();
     for r in raws {
         by_class.entry(r.class.clone()).or_default().push(r);
     }
-    // per class: minimise the first raw case; every later raw case that a found witness embeds in
-    // is "explained" by it; the first unexplained one is minimised in the next round
     struct ClassState {
         class: String,
         raws: Vec<Raw>,
@@ -133,9 +139,8 @@ pub fn finalize(
         overflow: u64,
     }
     let mut states: Vec<ClassState> = by_class.into_iter().map(|(class, raws)| ClassState { class, raws, next: 0, witnesses: vec![], overflow: 0 }).collect();
-    let far = Deadline::after_secs(7200.0); // minimisation is not cut by the exploration deadline
+    let far = Deadline::after_secs(6.0 * 3600.0); // minimisation is not cut by the exploration deadline
     loop {
-        // advance every class to its next unexplained raw case
         let mut jobs: Vec<(usize, usize)> = Vec::new();
         for (ci, cs) in states.iter_mut().enumerate() {
             while cs.next < cs.raws.len() {
@@ -165,11 +170,10 @@ pub fn finalize(
             let raw = &states[ci].raws[ri];
             // determinism before verdict: the raw case must fail again, identically
             let (min, v) = if fails(&raw.case, class).is_none() {
-                let c = raw.case.compact();
-                (c.clone(), Violation { signature: format!("nondeterministic:{class}"), witness: c.to_json(), detail: format!("failed once, passed on re-execution: {}", raw.detail) })
+                (raw.case.clone(), Violation { signature: format!("nondeterministic:{class}"), witness: raw.case.to_json(), detail: format!("failed once, passed on re-execution: {}", raw.detail) })
             } else {
-                let mut budget = 200usize;
-                let min = minimise(&raw.case.compact(), &|c: &Case| fails(c, class).is_some(), &mut budget);
+                let mut budget = 400usize;
+                let min = minimise(&raw.case, &|c: &Case| fails(c, class).is_some(), &mut budget);
                 let d = fails(&min, class).unwrap_or_else(|| raw.detail.clone());
                 (min.clone(), Violation { signature: class.clone(), witness: min.to_json(), detail: format!("{d}  (history: {})", min.describe()) })
             };
@@ -178,7 +182,6 @@ pub fn finalize(
         let mut res = results.into_inner().unwrap();
         res.sort_by_key(|x| x.0);
         for (ci, min, v) in res {
-            // two raw cases may reduce to the same witness
             if let Some(w) = states[ci].witnesses.iter_mut().find(|w| w.1.witness == v.witness && w.1.signature == v.signature) {
                 w.2 += 1;
             } else {
@@ -204,7 +207,29 @@ pub fn finalize(
     }
 }
 
-fn record(v: &Verdict, case: &Case, st: &mut Stats, raws: &Mutex<RawSink>, unstable: &std::sync::atomic::AtomicU64) {
+/// `par_range` in consecutive batches; when the deadline cuts a batch short, what that batch recorded
+/// is discarded, so the raw cases kept are exactly those of a prefix `0..k` of the case list.
+fn par_batches<F>(n: u64, threads: usize, dl: &Deadline, raws: &Mutex<RawSink>, seq_base: u64, f: F) -> (Stats, bool)
+where
+    F: Fn(u64, &mut Stats) + Sync,
+{
+    let batch = 384u64;
+    let mut all = Stats::default();
+    let mut start = 0u64;
+    while start < n {
+        let end = (start + batch).min(n);
+        let (st, ok) = par_range(end - start, threads, dl, |j, st| f(start + j, st));
+        all.merge(st);
+        if !ok {
+            raws.lock().unwrap().discard_from(seq_base | start);
+            return (all, false);
+        }
+        start = end;
+    }
+    (all, true)
+}
+
+fn record(v: &Verdict, case: &Case, seq: u64, st: &mut Stats, raws: &Mutex<RawSink>, unstable: &std::sync::atomic::AtomicU64) {
     if v.unstable {
         st.outcome("excluded:fresh-analysis-unstable");
         unstable.fetch_add(1, std::sync::atomic::Ordering::Relaxed);
@@ -224,7 +249,7 @@ fn record(v: &Verdict, case: &Case, st: &mut Stats, raws: &Mutex<RawSink>, unsta
         st.outcome("violates");
         let mut r = raws.lock().unwrap();
         for f in &v.findings {
-            r.push(Raw { case: case.clone(), class: f.class.clone(), detail: f.detail.clone() });
+            r.push(Raw { case: case.clone(), class: f.class.clone(), detail: f.detail.clone(), seq });
         }
     }
 }
@@ -353,7 +378,7 @@ pub fn run_c08(args: &Args) -> ! {
             break;
         }
         let results: Mutex<Vec<(usize, String)>> = Mutex::new(Vec::new());
-        let (st, done) = par_range(trans.len() as u64, args.threads, &dl, |i, st| {
+        let (st, done) = par_batches(trans.len() as u64, args.threads, &dl, &raws, (depth as u64) << 32, |i, st| {
             let (pi, suffix) = &trans[i as usize];
             let mut case = wss[prefixes[*pi].0].base.clone();
             case.ops = prefixes[*pi].1.clone();
@@ -363,7 +388,7 @@ pub fn run_c08(args: &Args) -> ! {
             let v = c08_check(&case, Some(&cache));
             st.eval(true);
             if judged {
-                record(&v, &case, st, &raws, &unstable);
+                record(&v, &case, ((depth as u64) << 32) | i, st, &raws, &unstable);
             } else {
                 st.outcome("intermediate (edit not yet restored)");
             }
@@ -386,6 +411,7 @@ pub fn run_c08(args: &Args) -> ! {
             }
         }
         if !done {
+            // the batch that was cut short contributes nothing (prefix property of the raw cases)
             exhaustive = false;
             break;
         }
@@ -492,14 +518,14 @@ pub fn run_c09(args: &Args) -> ! {
             }
         }
         let results: Mutex<Vec<(usize, String)>> = Mutex::new(Vec::new());
-        let (st, done) = par_range(trans.len() as u64, args.threads, &dl, |i, st| {
+        let (st, done) = par_batches(trans.len() as u64, args.threads, &dl, &raws, (d as u64) << 32, |i, st| {
             let (pi, suffix) = &trans[i as usize];
             let mut case = bases[prefixes[*pi].0].clone();
             case.ops = prefixes[*pi].1.clone();
             case.ops.extend(suffix.iter().cloned());
             let v = c09_check(&case, Some(&cache));
             st.eval(!Model::of(&case.ops).live().is_empty());
-            record(&v, &case, st, &raws, &unstable);
+            record(&v, &case, ((d as u64) << 32) | i, st, &raws, &unstable);
             if i % 499 == 3 {
                 st.sample(|| json!({"history": case.describe(), "then": "reindex vs fresh", "findings": v.findings.iter().map(|f| f.class.clone()).collect::<Vec<_>>()}));
             }
@@ -599,11 +625,11 @@ pub fn run_c10(args: &Args) -> ! {
     let raws = Mutex::new(RawSink::default());
     let unstable = std::sync::atomic::AtomicU64::new(0);
     let keys: Mutex<BTreeSet<String>> = Mutex::new(BTreeSet::new());
-    let (mut all, done) = par_range(cases.len() as u64, args.threads, &dl, |i, st| {
+    let (mut all, done) = par_batches(cases.len() as u64, args.threads, &dl, &raws, 0, |i, st| {
         let case = &cases[i as usize];
         let v = c10_check(case, Some(&cache));
         st.eval(!Model::of(&case.ops).live().is_empty());
-        record(&v, case, st, &raws, &unstable);
+        record(&v, case, i, st, &raws, &unstable);
         if i % 211 == 5 {
             st.sample(|| json!({"history": case.describe(), "findings": v.findings.iter().map(|f| f.class.clone()).collect::<Vec<_>>()}));
         }
@@ -705,7 +731,7 @@ pub fn run_c11(args: &Args) -> ! {
     let raws = Mutex::new(RawSink::default());
     let unstable = std::sync::atomic::AtomicU64::new(0);
     let keys: Mutex<BTreeSet<String>> = Mutex::new(BTreeSet::new());
-    let (mut all, done) = par_range(cases.len() as u64, args.threads, &dl, |i, st| {
+    let (mut all, done) = par_batches(cases.len() as u64, args.threads, &dl, &raws, 0, |i, st| {
         let case = &cases[i as usize];
         let v = c11_check(case);
         st.eval(true);
@@ -713,10 +739,10 @@ pub fn run_c11(args: &Args) -> ! {
             st.outcome("identity-run-not-reproducible");
             let mut r = raws.lock().unwrap();
             for f in &v.findings {
-                r.push(Raw { case: identity_of(case), class: f.class.clone(), detail: f.detail.clone() });
+                r.push(Raw { case: identity_of(case), class: f.class.clone(), detail: f.detail.clone(), seq: i });
             }
         } else {
-            record(&v, case, st, &raws, &unstable);
+            record(&v, case, i, st, &raws, &unstable);
         }
         if i % 97 == 5 {
             st.sample(|| json!({"history": case.describe(), "seams": case.seams, "findings": v.findings.iter().map(|f| f.class.clone()).collect::<Vec<_>>()}));
